@@ -19,7 +19,10 @@ EXPLANATION = (
     "exactly the even-length accepted words; braid moves and ss-deletions preserve wordProd in Mathlib's "
     "CoxeterSystem and the executable certificate checker is sound, so a shortening move sequence certifies "
     "non-reducedness (discrepancies are replayed with a Lean-checked certificate). "
-    "NOT PROVED (bounded TEST only): accepted <=> reduced, shortlex uniqueness/minimality, growth series, "
+    "RANK 2 PROVED: accepted <=> reduced and shortlex = one lexicographically least word per element, for every m >= 2 "
+    "and m = inf at the automaton level (hypothesis DihedralNb on the small-root table), end to end incl. findSmallRoots "
+    "for m in {2,3,inf}. "
+    "NOT PROVED for rank >= 3 (bounded TEST only): accepted <=> reduced, shortlex uniqueness/minimality, growth series, "
     "injectivity of the canonical images. The test compares the implementation's automata, for all words up to "
     "length L, with an independent Tits braid-move solver cross-checked against enumeration of the canonical "
     "representation. Correspondence: Python automaton == Lean model automaton up to BFS renumbering.")
@@ -51,6 +54,16 @@ class NoAutomaton(Exception):
 
 class Skipped(Exception):
     pass
+
+
+def even_limited(factor, fn):
+    """CPU-limited construction of even automata; after five cases that hit the limit the limit drops to 0.3 s, so that a
+    tree on which automaton_multiple degenerates everywhere still finishes inside the time budget"""
+    lim = factor * EVEN_CPU_LIMIT if _AUT.get("even_hits", 0) < 5 else 0.3
+    done, val = X.limited(lim, fn)
+    if not done:
+        _AUT["even_hits"] = _AUT.get("even_hits", 0) + 1
+    return done, val
 
 
 def build_automaton(G, shortlex):
@@ -264,7 +277,7 @@ def run_even(inp):
         return {"skipped": "large"}
     # automaton_multiple re-expands vertices that are queued more than once: its running time is exponential in the
     # depth for large automata (a performance problem, not a language error) -> CPU-time limit, case skipped when hit
-    done, ev = X.limited(EVEN_CPU_LIMIT, lambda: G.automaton(shortlex=inp["lex"], even_length=True))
+    done, ev = even_limited(1, lambda: G.automaton(shortlex=inp["lex"], even_length=True))
     if not done:
         return {"skipped": "even_automaton exceeded the CPU limit", "nstates": len(aut.graph_dict)}
     n = len(names)
@@ -368,16 +381,18 @@ def tits_solver(M, L):
     for ell in range(L):
         seen_words, classes = set(), []
         for cls in levels[-1]:
-            for u in cls:
-                for k in range(n):
-                    w = u + (k,)
-                    if w in seen_words:
-                        continue
-                    c = braid_class(w, M)
-                    if any(has_square(v) for v in c):
-                        continue          # not reduced (Tits)
-                    seen_words |= c
-                    classes.append(frozenset(c))
+            # all words of a class are the reduced expressions of ONE element g: g s_k is reduced or not independently of
+            # the expression chosen, and the class of u.k contains u'.k for every u' in the class (Matsumoto/Tits)
+            u = min(cls)
+            for k in range(n):
+                w = u + (k,)
+                if w in seen_words:
+                    continue
+                c = braid_class(w, M)
+                if any(has_square(v) for v in c):
+                    continue          # not reduced (Tits)
+                seen_words |= c
+                classes.append(frozenset(c))
         levels.append(classes)
     return levels
 
@@ -398,9 +413,18 @@ def gen_lang(rng, n):
     tier = _tier()
     if tier != "thorough":
         n = min(n, 600)      # the runner's escalated search asks for 10x; the exhaustive part is already in the first 358
-    for M in matrices(rng, n, exhaustive3=True):
-        style = rng.choice(["alpha", "alphanum"])
-        yield {"M": M, "style": style, "L": oracle_L(len(M), tier)}
+    nexh = len(R2) + len(R3_LABELLED) + len(SPECIAL4)
+    ms = matrices(rng, n, exhaustive3=True)
+    # a few rank-3 cases through the diagram route as well (the exhaustive block keeps the matrix route, so that every
+    # labelling is really visited)
+    ms += [rng.choice(R3_LABELLED) for _ in range(25)]
+    for idx, M in enumerate(ms):
+        # both constructor routes: the solver works on the matrix / generator order the *input* prescribes
+        spec = X.rand_spec(rng, M, allow_multichar=False) if (idx >= nexh and rng.random() < 0.6) else \
+            {"route": "matrix", "M": M, "style": rng.choice(["alpha", "alphanum"])}
+        Mx, _ = X.expected_matrix_and_names(spec)
+        yield {"M": Mx, "spec": spec, "style": spec.get("style", "alpha"), "L": oracle_L(len(M), tier),
+               "buffer": rng.random() < 0.4, "order": rng.sample(range(3), 3)}
 
 
 def accepted(aut, names, L, even=False):
@@ -429,18 +453,45 @@ def run_lang(inp):
     from geometry_tools import coxeter
     M, L = inp["M"], inp["L"]
     n = len(M)
-    G = coxeter.CoxeterGroup(matrix=np.array(M), generator_style=inp["style"])
-    names = list(G.ordered_gens)
+    if "spec" in inp and inp["spec"]["route"] == "matrix" and inp.get("buffer"):
+        # the caller's array is edited in place after the group has been constructed
+        work = np.array(M)
+        G = coxeter.CoxeterGroup(matrix=work, generator_style=inp["style"])
+        work[...] = 2
+        np.fill_diagonal(work, 1)
+        names = X.expected_matrix_and_names(inp["spec"])[1]
+    elif "spec" in inp:
+        G = X.build_group(inp["spec"])
+        names = X.expected_matrix_and_names(inp["spec"])[1]       # prescribed by the input, not read from the library
+    else:
+        G = coxeter.CoxeterGroup(matrix=np.array(M), generator_style=inp["style"])
+        names = list(G.ordered_gens)
+    # the three kinds of request are made on the same object in a random order
+    geo = lex = None
+    done, evs = True, None
     try:
-        geo = build_automaton(G, False)
-        lex = build_automaton(G, True)
+        for step in inp.get("order", [0, 1, 2]):
+            if step == 0:
+                geo = build_automaton(G, False)
+            elif step == 1:
+                lex = build_automaton(G, True)
+            else:
+                done, evs = even_limited(2, lambda: (G.automaton(shortlex=False, even_length=True),
+                                                     G.automaton(shortlex=True, even_length=True)))
     except Skipped:
         return {"skipped": "large", "bad": {}}
-    done, evs = X.limited(2 * EVEN_CPU_LIMIT, lambda: (G.automaton(shortlex=False, even_length=True),
-                                                       G.automaton(shortlex=True, even_length=True)))
     A_geo, A_lex = accepted(geo, names, L), accepted(lex, names, L)
     if done:
-        A_geo_e, A_lex_e = accepted(evs[0], names, L - L % 2, even=True), accepted(evs[1], names, L - L % 2, even=True)
+        labs = {names[a] + names[b] for a in range(n) for b in range(n)}
+        stray = sorted({str(l) for e in evs for nbrs in e.graph_dict.values() for l in nbrs if l not in labs})
+        if stray:
+            bad_even_labels = stray[:5]
+            done = False
+        else:
+            bad_even_labels = None
+            A_geo_e, A_lex_e = accepted(evs[0], names, L - L % 2, even=True), accepted(evs[1], names, L - L % 2, even=True)
+    else:
+        bad_even_labels = None
     levels = tits_solver(M, L)
     reduced = set().union(*[set().union(*lv) if lv else set() for lv in levels])
     nf = {min(c) for lv in levels for c in lv}
@@ -455,16 +506,34 @@ def run_lang(inp):
             bad["geodesic"]["certificate"] = {"word": list(d1[0]), "steps": certificate(d1[0], M)}
     if A_lex != nf:
         bad["shortlex"] = {"accepted_not_normal_form": sorted(A_lex - nf)[:3], "normal_form_not_accepted": sorted(nf - A_lex)[:3]}
+    if bad_even_labels:
+        bad["even"] = {"labels_that_are_not_products_of_two_generator_names": bad_even_labels}
     ev_geo = {w for w in A_geo if len(w) % 2 == 0}
     ev_lex = {w for w in A_lex if len(w) % 2 == 0}
     if done and (A_geo_e != ev_geo or A_lex_e != ev_lex):
         bad["even"] = {"geo_diff": sorted(A_geo_e ^ ev_geo)[:3], "lex_diff": sorted(A_lex_e ^ ev_lex)[:3]}
     # the library's own enumeration agrees with the direct traversal (single-character names only)
-    if inp["style"] == "alpha":
+    # documented defaults: automaton() is the shortlex automaton, not the even-length variant
+    dflt = G.automaton()
+    if accepted(dflt, names, min(L, 5)) != {w for w in A_lex if len(w) <= min(L, 5)}:
+        bad["defaults"] = "automaton() differs from automaton(shortlex=True, even_length=False)"
+    if all(len(x) == 1 for x in names):
         lib = set(lex.enumerate_words(L))
         mine = {"".join(names[k] for k in w) for w in A_lex}
         if lib != mine:
             bad["enumerate_words"] = sorted(lib ^ mine)[:3]
+        if done:
+            libe = set(evs[1].enumerate_words((L - L % 2) // 2))
+            minee = {"".join(names[k] for k in w) for w in A_lex if len(w) % 2 == 0}
+            if libe != minee:
+                bad["enumerate_words_even"] = sorted(libe ^ minee)[:3]
+    # FSA.accepts on every word up to length 4 (letters passed as a list of generator names)
+    for l in range(min(L, 4) + 1):
+        for w in itertools.product(range(n), repeat=l):
+            if geo.accepts([names[k] for k in w]) != (w in reduced) or lex.accepts([names[k] for k in w]) != (w in nf):
+                bad.setdefault("accepts", []).append(list(w))
+    if "accepts" in bad:
+        bad["accepts"] = bad["accepts"][:3]
     growth_lex = [sum(1 for w in A_lex if len(w) == l) for l in range(L + 1)]
     # cross-check with the canonical representation: Cayley ball by matrix enumeration, float keys
     can = G.canonical_representation()
@@ -528,12 +597,55 @@ def judge_lang(inp, obs, lr):
     if obs["bad"]:
         if lr:
             obs["bad"]["geodesic"]["certificate"]["lean_checkCert"] = lr[0]
-        pref = ["geodesic", "shortlex", "even", "growth", "injective", "length", "enumerate_words", "api_image"]
+        pref = ["geodesic", "shortlex", "even", "growth", "injective", "length", "accepts", "enumerate_words", "enumerate_words_even", "defaults", "api_image"]
         what = sorted(obs["bad"], key=lambda k: pref.index(k) if k in pref else 99)[0]
         return {"expected": {"geodesic": "accepted words = reduced words", "shortlex": "accepted = least reduced expression of each element",
                              "even": "even automaton = even-length accepted words", "growth": "counts = growth series",
                              "injective": "distinct shortlex words have distinct canonical images"}.get(what, what),
                 "observed": obs["bad"], "tags": {"what": what, "rank": len(inp["M"])}}
+    return None
+
+
+# ---- rank 2: the hypothesis of the Lean theorems accepts_iff_reduced_rank2 / shortlex_rank2 -------------------
+def gen_r2(rng, n):
+    for m in list(range(2, 13)) + [0, -1, -2]:
+        yield {"m": m}
+
+
+def run_r2(inp):
+    m = inp["m"]
+    form = [[1.0, -math.cos(math.pi / m) if m > 0 else -1], [-math.cos(math.pi / m) if m > 0 else -1, 1.0]]
+    sr = CA.find_small_roots(form)
+    return {"v": [[float(x) for x in r.v] for r in sr], "nb": [[x.id if x else None for x in r.neighbors] for r in sr]}
+
+
+def judge_r2(inp, obs, lr):
+    """DihedralNb m nb ang: nb is the action of s0, s1 on the m positive roots indexed by their angle (in units of pi/m
+    from alpha_0), alpha_0 -> 0, alpha_1 -> m-1;  s0: a -> m-a (a != 0), s1: a -> m-2-a (a != m-1).  For m = inf: two roots,
+    no neighbours (the hypothesis of accepts_iff_reduced_rank2_inf)."""
+    if "exc" in obs:
+        return {"expected": "small roots", "observed": obs, "tags": {"exc": obs["exc"]}}
+    m, nb, v = inp["m"], obs["nb"], obs["v"]
+    tags = {"m": m}
+    if m <= 0:
+        if nb != [[None, None], [None, None]]:
+            return {"expected": "two small roots without neighbours", "observed": nb, "tags": tags}
+        return None
+    if len(nb) != m:
+        return {"expected": f"{m} small roots", "observed": len(nb), "tags": tags}
+    c, s_ = math.cos(math.pi - math.pi / m), math.sin(math.pi - math.pi / m)      # alpha_1 at angle (m-1) pi/m
+    ang = []
+    for x, y in v:
+        px, py = x + y * c, y * s_
+        ang.append(int(round(math.atan2(py, px) * m / math.pi)))
+    ok = ang[0] == 0 and ang[1] == m - 1 and sorted(ang) == list(range(m))
+    for p in range(m):
+        a = ang[p]
+        e0 = None if a == 0 else ang.index(m - a) if (m - a) in ang else "?"
+        e1 = None if a == m - 1 else ang.index(m - 2 - a) if (m - 2 - a) in ang else "?"
+        ok = ok and nb[p] == [e0, e1]
+    if not ok:
+        return {"expected": "DihedralNb m nb ang (reflection action on the roots by angle)", "observed": {"ang": ang, "nb": nb}, "tags": tags}
     return None
 
 
@@ -546,6 +658,11 @@ CLAUSES = [
     Clause("even_corr", "corr", gen_even, run_even, judge_even, lean=lean_even,
            site="coxeter.CoxeterGroup.automaton(even_length=True) / fsa.automaton_multiple", budget={"quick": 80, "thorough": 800},
            what="even_automaton of the implementation's table vs Lean evenAutomaton (up to BFS renumbering)"),
+    Clause("rank2_hypothesis_oracle", "oracle", gen_r2, run_r2, judge_r2, site="coxeter_automaton.find_small_roots",
+           budget={"quick": 14, "thorough": 14},
+           what="the hypothesis DihedralNb of the Lean rank-2 theorems (central clause PROVED for rank 2) holds of the "
+                "implementation's small roots for m = 2..12 and infinity (0/-1/-2): a test of the one link that is not proved "
+                "for irrational cosines"),
     Clause("language_oracle", "oracle", gen_lang, run_lang, judge_lang, lean=lean_lang,
            site="coxeter.CoxeterGroup.automaton", budget={"quick": 400, "thorough": 650},
            what="BOUNDED TEST of the unproved clause: accepted words up to length L vs independent Tits braid-move solver and "
